@@ -41,6 +41,8 @@ def gen_verlet(rng, k, small):
         c["morse"] = [rng.choice([0.2, 1.0]), rng.choice([1.0, 1.5]), 2.5]
     if not small and n >= 2 and random.Random(k * 31 + n).random() < 0.3:
         c["bonds"] = [[0, 1]] + ([[0, 2]] if n == 3 else [])      # rigid bonds: reversibility and the order hold for constrained dynamics too
+    elif not small and n >= 2 and random.Random(k * 17 + n).random() < 0.3:
+        c["hookean"] = random.Random(k).choice([0.5, 2.0])             # a Hookean restraint between atoms 0 and 1 (it contributes energy and forces)
     return c
 
 
@@ -133,6 +135,8 @@ def run(res: C.Result):
             n3 = 3 * c["natoms"]
             q0 = [x for row in c["q"] for x in row]
             p0 = [x for row in c["p"] for x in row]
+            if c.get("hookean"):
+                dist["hookean_cases"] = dist.get("hookean_cases", 0) + 1
             if c.get("bonds"):
                 q0, p0 = [fx(x) for x in r["q0"]], [fx(x) for x in r["p0"]]      # the start state after the constraint projection
                 dist["rigid_bond_cases"] = dist.get("rigid_bond_cases", 0) + 1
@@ -148,7 +152,7 @@ def run(res: C.Result):
                              f"p={p2[i]!r} (start {-p0[i]!r} after flip)", {"input": c, "observed": {x: r[x] for x in ("q1", "p1", "q2", "p2")}})
                     break
             # ---- harmonic: the proved energy-error bound, per coordinate
-            if c["pot"] == "harmonic" and not c.get("bonds"):
+            if c["pot"] == "harmonic" and not c.get("bonds") and not c.get("hookean"):
                 for i in range(n3):
                     kk, m = c["k"][i // 3], c["masses"][i // 3]
                     r0 = c["r0"][i // 3][i % 3]
@@ -175,7 +179,7 @@ def run(res: C.Result):
                 else:
                     dist["order_skipped_rounding"] += 1
             # ---- correspondence with the Coq model (harmonic wells, few steps)
-            if c["pot"] == "harmonic" and c["n"] <= 3 and not c.get("bonds"):
+            if c["pot"] == "harmonic" and c["n"] <= 3 and not c.get("bonds") and not c.get("hookean"):
                 K = vec_lit([c["k"][i // 3] for i in range(n3)])
                 R0 = vec_lit([c["r0"][i // 3][i % 3] for i in range(n3)])
                 M = vec_lit([c["masses"][i // 3] for i in range(n3)])
